@@ -11,6 +11,7 @@ import (
 	"io"
 	"net/http"
 	"net/http/httptest"
+	"os"
 	"sort"
 	"strings"
 
@@ -112,14 +113,43 @@ func FreshAll() {
 	compress.VerifFreshRegistries()
 }
 
+// UpdateSeq is the call sequence of main.update() as found in /repo's main.go by the
+// driver (PIKEMC_UPDATE_SEQ); Apply performs exactly these calls in this order, so a
+// change to update() is exercised by every harness that builds an instance.
+var UpdateSeq = func() []string {
+	if v := os.Getenv("PIKEMC_UPDATE_SEQ"); v != "" {
+		return strings.Fields(v)
+	}
+	return []string{"config.Read", "compress.Reset", "cache.ResetDispatchers", "upstream.ResetWithOnStats", "location.Reset", "server.Reset", "server.Start"}
+}()
+
 // Apply performs the same calls, in the same order, as main.update().
 func Apply(cfg *config.PikeConfig) error {
-	compress.Reset(cfg.Compresses)
-	cache.ResetDispatchers(cfg.Caches)
-	upstream.ResetWithOnStats(cfg.Upstreams, func(upstream.StatusInfo) {})
-	location.Reset(cfg.Locations)
-	server.Reset(cfg.Servers)
-	return server.Start()
+	var err error
+	for _, call := range UpdateSeq {
+		switch call {
+		case "config.Read":
+			// the configuration is handed in directly
+		case "compress.Reset":
+			compress.Reset(cfg.Compresses)
+		case "cache.ResetDispatchers":
+			cache.ResetDispatchers(cfg.Caches)
+		case "upstream.ResetWithOnStats":
+			upstream.ResetWithOnStats(cfg.Upstreams, func(upstream.StatusInfo) {})
+		case "upstream.Reset":
+			upstream.Reset(cfg.Upstreams)
+		case "location.Reset":
+			location.Reset(cfg.Locations)
+		case "server.Reset":
+			server.Reset(cfg.Servers)
+		case "server.Start":
+			err = server.Start()
+		default:
+			fmt.Fprintf(os.Stderr, "HARNESS ERROR: main.update() calls %s, which the harness does not know how to mirror\n", call)
+			os.Exit(2)
+		}
+	}
+	return err
 }
 
 // New starts a fresh pike from cfg and replaces every upstream's Proxy by the fake origin.
